@@ -79,6 +79,14 @@ var (
 		Text: "RET.1/FRAME.1: function bodies are compiled, then optimised/terminated, then captured; NumLocals/NumParameters/VarArgs/capture list come from the function's own table and signature before the scope is left; main ends in a never-fall-through opcode; optimizeFunc appends the final return"}
 	rOPT = &Rule{Name: "OPT", Floor: 5, Fn: ruleOPT,
 		Text: "OPT.1 offsets looked up in the old→new position map are used verbatim (jump operands, source-map keys), a jump to the old end maps to the new end; OPT.2 the map is filled with len(new) right before each instruction is appended; OPT.3 jump destinations end dead regions"}
+	rTAIL = &Rule{Name: "TAIL", Floor: 8, Fn: ruleTAIL,
+		Text: "TAIL.1 the frame-reuse predicate, evaluated over all opcode pairs, is true only when the call is followed by RET or POP;RET and always when followed by RET, with look-ahead offsets derived from the operand widths; TAIL.2 the reuse path is guarded by callee == running function, writes no frame state, copies arguments directly into the parameter slots, resets sp/ip, and precedes the frame push; TAIL.3 the compiler emits RET 1 right after a returned expression and nothing after the right operand of &&/||"}
+	rMOD = &Rule{Name: "MOD", Floor: 18, Fn: ruleMOD,
+		Text: "MOD.1 a module is compiled against NewSymbolTable()+builtins forked as a function scope, by a child compiler with nil constants/parent set, constants added at the root; MOD.2 the cyclic-import check is compileModule's first statement and walks the whole parent chain; MOD.3 cache lookup → parse → compile → store, at the root; MOD.4 source imports compile to CONST fn; CALL 0 0; MOD.5 file-system calls only under the allowFileImport flag (who-may-call), flag written only by EnableFileImport/fork, module map consulted first, Script default off"}
+	rERR = &Rule{Name: "ERR", Floor: 13, Fn: ruleERR,
+		Text: "ERR.1 on the VM→host path every fmt.Errorf that receives an error formats it with %w; ERR.2 the engine's sentinel errors are never compared-and-replaced, and every error-handling block of the VM/indexAssign ends by passing the callee's error on unchanged"}
+	rPOS1 = &Rule{Name: "POS.1", Floor: 6, Fn: rulePOS1,
+		Text: "emit stores a source-map entry keyed by the offset addInstruction returned and returns that offset; no emit site passes a nil node; OpCall saves the caller's ip before switching frames; Run looks up ip-1 of the failing frame and the saved ip-1 of each caller, innermost first"}
 )
 
 func allProperties() []*Property {
@@ -131,6 +139,18 @@ func allProperties() []*Property {
 			Decided:    "the three variable families' selector-assignment arms are clones; operand decoding of all Local/Free/Global opcodes agrees with the encoder.",
 			NotDecided: "the metamorphic relation itself (needs executing transformed programs).",
 			Rules:      []*Rule{rFAM1, rCODEC3}},
+		{ID: "C13",
+			Decided:    "module bodies are compiled against a fresh builtin-only table; the cycle check dominates and walks the import stack; compile-once ordering at the root cache; import = CONST+CALL; exported values pass OpImmutable; file APIs are confined behind the permission flag.",
+			NotDecided: "termination and the exact success condition over all import graphs as a run-time fact.",
+			Rules:      []*Rule{rMOD, rIMM4}},
+		{ID: "C14",
+			Decided:    "sentinel and host errors survive to the caller wrapped with %w; every instruction gets a source position keyed by its own offset, kept consistent through the optimizer; call-site ips are saved before frame switches and looked up innermost first.",
+			NotDecided: "that a reported position lies within the failing statement (depends on per-opcode ip bookkeeping and each program's source map).",
+			Rules:      []*Rule{rERR, rPOS1, rOPT}},
+		{ID: "C16",
+			Decided:    "the VM's tail-call predicate is exactly 'next is RET or POP;RET'; the reuse path grows no frame and overwrites parameter slots directly; the compiler places RET directly after the documented tail positions.",
+			NotDecided: "that deep recursion terminates with the right value.",
+			Rules:      []*Rule{rTAIL, rCODEC3}},
 		{ID: "C12",
 			Decided:    "constant re-indexing covers exactly the opcodes through which the VM reads the constant pool, with the operand layout of the tables.",
 			NotDecided: "behavioural equality after de-duplication / gob round trip.",
